@@ -53,36 +53,17 @@ func metaModeKeys(c *Ctx, fn *ssa.Function, x *eng.Explorer) (map[string]bool, b
 		}
 		return bo.Op == token.NEQ, true
 	}
-	cellOn := func(root *ssa.Alloc) (on bool, ok bool) {
-		n := 0
-		for _, st := range c.P.Census().CellStorers(root) {
-			eng.InstrsShallow(st, func(in ssa.Instruction) {
-				s, isS := in.(*ssa.Store)
-				if !isS {
-					return
-				}
-				var a *ssa.Alloc
-				switch ad := s.Addr.(type) {
-				case *ssa.Alloc:
-					a = ad
-				case *ssa.FreeVar:
-					a = c.P.Census().Root(ad)
-				}
-				if a != root {
-					return
-				}
-				n++
-				if o, isT := isTest(s.Val); isT {
-					on, ok = o, true
-				} else {
-					clean = false
-				}
-			})
-		}
-		if n != 1 {
-			if ok {
-				clean = false
+	// a mode cell is a boolean variable (local, captured, or a field of the
+	// loop's state object) that is assigned the test; it must be assigned once
+	cellOn := func(id string) (on bool, ok bool) {
+		stores := c.P.CellStores(id)
+		for _, s := range stores {
+			if o, isT := isTest(s.Val); isT {
+				on, ok = o, true
 			}
+		}
+		if ok && len(stores) != 1 {
+			clean = false
 			return false, false
 		}
 		return on, ok
@@ -100,21 +81,13 @@ func metaModeKeys(c *Ctx, fn *ssa.Function, x *eng.Explorer) (map[string]bool, b
 		if !isU || u.Op != token.MUL {
 			return
 		}
-		var root *ssa.Alloc
-		switch ad := u.X.(type) {
-		case *ssa.Alloc:
-			root = ad
-		case *ssa.FreeVar:
-			root = c.P.Census().Root(ad)
-		}
-		if root == nil {
+		if bt, isBasic := u.Type().Underlying().(*types.Basic); !isBasic || bt.Kind() != types.Bool {
 			return
 		}
-		if bt, isBasic := root.Type().(*types.Pointer).Elem().Underlying().(*types.Basic); !isBasic || bt.Kind() != types.Bool {
-			return
-		}
-		if on, ok := cellOn(root); ok {
-			keys[x.KeyAtEntry(u)] = on
+		if id := c.P.CellID(u.X); id != "" {
+			if on, ok := cellOn(id); ok {
+				keys[x.KeyAtEntry(u)] = on
+			}
 		}
 	})
 	return keys, clean
@@ -477,20 +450,19 @@ func r19_6(c *Ctx, rule string) {
 	c.R.Check(len(h) == 0 && !ex.Exhausted && len(closes) > 0, rule, base+"/success-is-close", c.pos(open), "success is the result of closing the listing file", "receiver.run can return success without a checked close of the listing file")
 	// the buffer written is the one the loop filled
 	if loop := recvLoop(c, rule); loop != nil {
+		// the cell (captured variable or field of the loop's state object) the
+		// loop's buffer.alloc receiver is loaded from, and the one WriteTo's is
 		var cellLoop, cellRun bool
-		for _, fv := range loop.FreeVars {
-			if fv.Name() == "metadataBuffer" {
-				if root := c.P.Census().Root(fv); root != nil && root.Parent() == run {
-					cellLoop = true
-					for _, call := range wt {
-						if c.DerivesFrom(call.Common().Args[0], func(v ssa.Value) bool {
-							u, ok := v.(*ssa.UnOp)
-							return ok && u.Op == token.MUL && u.X == ssa.Value(root)
-						}, 3) {
-							cellRun = true
-						}
-					}
-				}
+		filled := map[string]bool{}
+		for _, call := range c.P.CallsTo(loop, "fsutil.(*buffer).alloc") {
+			if id := c.loadedCell(call.Common().Args[0]); id != "" {
+				filled[id] = true
+				cellLoop = true
+			}
+		}
+		for _, call := range wt {
+			if id := c.loadedCell(call.Common().Args[0]); id != "" && filled[id] && len(filled) == 1 {
+				cellRun = true
 			}
 		}
 		c.R.Check(cellLoop && cellRun, rule, base+"/same-buffer", c.P.Pos(run.Pos()), "the buffer written is the one the receive loop filled", "the buffer written to the listing file is not the one the receive loop filled")
